@@ -45,6 +45,8 @@ const indexLenClause = "indexable length (E13): every type switch that maps arra
 
 const guardAgreeClause = "guard agreement (E14): a variable assigned at several sites of one function, each directly under an `== <enum constant>` test (the recorded name of the local_invocation_id / vertex_index / instance_index parameter for direct builtin arguments and for builtin struct members), is assigned under the same constant at every site"
 
+const resolutionClause = "type resolution forms (E21): code that branches on the two forms of one ir.TypeResolution (inline Value vs Handle into Module.Types) and inspects the type in both branches recognises the same type shapes (scalar, vector, matrix ...) in both"
+
 const orderClause = "operand order (E12): wherever a value derived only from the left operand of a binary expression (.Left of a node that has both fields, or the first of the two operand parameters of a function that also takes the operator) and one derived only from the right operand are handed on together - two arguments of a call, two elements of a positional literal, the Left/Right fields of a keyed literal, two consecutive text emissions - the left-derived one comes first; the sites that mirror the operands on purpose (HLSL mul, OpMatrixTimesScalar / OpVectorTimesScalar with a scalar on the left) are counted and must stay mirrored"
 
 var orderFloors = map[string]int{"hlsl": 6, "msl": 7, "glsl": 25, "spirv": 15, "wgsl": 9, "ir": 5}
@@ -64,6 +66,16 @@ func backendProp(b backendSpec, meaning string) propFunc {
 		r.Clauses = append(r.Clauses, orderClause)
 		c.runOperandOrder(r, "order."+b.Name, inPkgs(b.Name))
 		r.floor("order."+b.Name, orderFloors[b.Name])
+		if b.Name == "hlsl" {
+			r.Clauses = append(r.Clauses, "width-blind scalar names (E22): every call of a helper that names integer scalars without looking at their width (right only for the float scalar of a matrix) - directly or through a wrapper that forwards its ScalarType parameter - passes the Scalar of an ir.MatrixType value or a float scalar literal; 64-bit integer scalars and vectors are never named through it")
+			c.runScalarNarrow(r, "scalar.narrow", "hlsl/internal/codegen")
+			r.floor("scalar.narrow.sites", 3)
+		}
+		if b.Name == "glsl" {
+			r.Clauses = append(r.Clauses, resolutionClause)
+			c.runResolutionSiblings(r, "resolution.siblings", inPkgs("glsl"), nil)
+			r.floor("resolution.siblings", 4)
+		}
 		r.Clauses = append(r.Clauses, enumMapClause)
 		c.runEnumTables(r, b.Name)
 		r.Clauses = append(r.Clauses, "termination predicate (E15): the predicate over a block's last statement that decides whether a switch clause needs a closing break answers true only for Break/Continue/Return/Kill, for a trailing nested block what it answers for that block, for a trailing if only when both arms are terminated")
